@@ -93,6 +93,16 @@ def _special_double_straddles(b):
     return False
 
 
+UNION_COUNT_RE = re.compile(r"\*([A-Za-z0-9_]+)\.([A-Za-z0-9_]+) read union: exactly one field must be set \((\d+) set\)")
+
+
+def _union_has_init_const(p, go_pkg, go_name):
+    for fn, sd in L.all_structs(p):
+        if sd["kind"] == "union" and L.go_pkg(fn) == go_pkg and L.go_struct_name(sd["name"]) == go_name:
+            return any(init_const_default(p, f) for f in sd["fields"])
+    return False
+
+
 def init_const_default(p, f):
     d = f.get("default")
     if f["mod"] != "optional" or not d or not d.get("const"):
@@ -1114,6 +1124,20 @@ def _read_oracle(ctx, p, plan, gen_opts, stats, rmeta, rres, diff_index, per_typ
                 quirk_union_count_off(p, t, v):
             known_sig = KNOWN_INIT_CONST     # a union counted with the emitted IsSet (default read before init())
             stats["known_init_const_default/read/" + pr] += 1
+        if known_sig is None and r.get("code") == 4 and not (why and mut == "truncate"):
+            # Read refuses the content because a union counts MORE members than one: when the union named in the error has a
+            # member whose default is a constant read before init() (the known finding), a member holding that default is
+            # counted as set by the emitted IsSet whatever else the encoding holds
+            mm = UNION_COUNT_RE.search(r.get("err") or "")
+            if mm and int(mm.group(3)) >= 2 and _union_has_init_const(p, mm.group(1), mm.group(2)):
+                known_sig = KNOWN_INIT_CONST
+                stats["known_init_const_default/read-refuses-named-union/" + pr] += 1
+        if not why and known_sig is None and mut == "dup" and r.get("code") == 4 and has_init_const_default(p, s) and \
+                quirk_union_count_off(p, t, v) and not union_count_off(p, t, v, False):
+            # a field sent twice leaves the value as written; Read refuses it because a union inside has exactly one member set
+            # by the declaration and not by the emitted IsSet of the known finding (a member holding its default counts too)
+            known_sig = KNOWN_INIT_CONST
+            stats["known_init_const_default/read-refuses/" + pr] += 1
         if not why and known_sig is None and got is not None and has_init_const_default(p, s) and \
                 union_count_off(p, t, got, False) and not quirk_union_count_off(p, t, got):
             # Read accepted a content in which a union does not have exactly one field set by the declaration, and has
